@@ -29,95 +29,7 @@ func runC25(c *core.Ctx) {
 	p := c.P
 
 	c.Clause("C25.pool", func() {
-		f := c.Fn(poolT + ".flush")
-		idParam := f.Param(0)
-		marks := f.CallsTo("kvdb/flushable.MarkFlushID")
-		var dirty, clean []*core.CallSite
-		for _, m := range marks {
-			c.Need(len(m.Call.Args) == 4, "MarkFlushID(db, key, prefix, id)")
-			okArgs := fieldNameOf(f, m.Call.Args[1]) == poolT+".flushIDKey" && varOf(f, m.Call.Args[3]) == idParam
-			c.Check(okArgs, "mark uses the pool's key and the flush ID", "provenance", m.Pos(), "MarkFlushID(db, p.flushIDKey, ·, id)", "a flush mark is written with a different key or ID")
-			switch {
-			case constNamed(f, m.Call.Args[2], "kvdb/flushable.DirtyPrefix"):
-				dirty = append(dirty, m)
-			case constNamed(f, m.Call.Args[2], "kvdb/flushable.CleanPrefix"):
-				clean = append(clean, m)
-			default:
-				c.Undecided("mark prefix", "T2", m.Pos(), "MarkFlushID with a prefix that is neither DirtyPrefix nor CleanPrefix")
-			}
-		}
-		c.Need(len(dirty) == 1 && len(clean) == 1, "exactly one dirty-mark and one clean-mark site in flush")
-		dirtyLoop, _ := enclosingLoop(f, dirty[0].Pos()).(*ast.RangeStmt)
-		cleanLoop, _ := enclosingLoop(f, clean[0].Pos()).(*ast.RangeStmt)
-		c.Need(dirtyLoop != nil && cleanLoop != nil, "marks are written inside range loops")
-		dirtyDone, dComplete := loopDone(f, dirtyLoop)
-		c.Check(dComplete, "dirty-mark loop is complete", "T2 (loop)", dirtyLoop.Pos(), "the dirty loop's exit is reached only after ranging over every database (no break)", "the dirty-mark loop can be left early: some databases stay unmarked")
-		// the dirty mark is written on every iteration of its loop (not skipped by a continue)
-		if head, _ := f.LoopOf(dirtyLoop); head != nil {
-			bodyEntry := core.Point{B: head.Succs[0], I: 0}
-			_, skip := core.PathQuery{F: f, From: bodyEntry, Target: func(pt core.Point) bool { return pt.B == head }, Avoid: core.PointSet(dirty[0].Pt)}.Find()
-			c.Check(!skip, "every iteration writes the dirty mark", "T2 (loop)", dirtyLoop.Pos(), "no path through the loop body reaches the next iteration without MarkFlushID(Dirty)", "an iteration of the dirty-mark loop can skip a database")
-		}
-		// durable mutations
-		var muts []*core.CallSite
-		for _, cs := range f.Calls() {
-			if cs.Name == "kvdb.Droper.Drop" || methodNamed(cs.Name, "Drop") || methodNamed(cs.Name, "RealDrop") ||
-				cs.Name == "kvdb/flushable.LazyFlushable.Flush" || cs.Name == "kvdb/flushable.Flushable.Flush" || cs.Name == "kvdb.FlushableKVStore.Flush" {
-				muts = append(muts, cs)
-			}
-		}
-		c.ExpectAtLeast("durable mutations in flush (Drop, Flush)", len(muts), 2)
-		var flushes []*core.CallSite
-		for _, m := range muts {
-			ok, wit := mustPassBlockBefore(f, dirtyDone, m.Pt)
-			what := "database drop"
-			if methodNamed(m.Name, "Flush") {
-				what = "data flush"
-				flushes = append(flushes, m)
-			}
-			c.Check(ok, what+" after all dirty marks", "T2 Dominates (loop exit)", m.Pos(),
-				"the exit of the dirty-mark loop dominates this "+what,
-				"this "+what+" ("+short(m.Name)+") can run before every pooled database carries the dirty mark: a crash right after it leaves databases that still show the previous clean flush ID although the set of databases/contents has changed; path "+f.DescribePath(wit))
-		}
-		// flush loop complete before any clean mark
-		for _, fl := range flushes {
-			loop, _ := enclosingLoop(f, fl.Pos()).(*ast.RangeStmt)
-			c.Need(loop != nil, "Flush is called inside a range loop")
-			done, complete := loopDone(f, loop)
-			ok, wit := mustPassBlockBefore(f, done, clean[0].Pt)
-			c.Check(ok && complete, "clean marks after all flushes", "T2 Dominates (loop exit)", clean[0].Pos(), "the exit of the complete flush loop dominates the clean-mark loop", "a clean mark can be written before every database was flushed: "+f.DescribePath(wit))
-			// same collection
-			c.Check(fieldNameOf(f, loop.X) == poolT+".wrappers" && fieldNameOf(f, dirtyLoop.X) == poolT+".wrappers" && fieldNameOf(f, cleanLoop.X) == poolT+".wrappers",
-				"the three phases range over the same map", "T16b SiblingAgreement", loop.Pos(), "dirty, flush and clean loops all range over p.wrappers", "the phases range over different collections")
-		}
-		// no change of the map between the dirty loop and the end
-		for _, cs := range f.CallsTo("builtin.delete") {
-			if fieldNameOf(f, cs.Call.Args[0]) == poolT+".wrappers" {
-				dpt := core.Point{B: dirtyDone, I: 0}
-				reach := false
-				if len(dirtyDone.Nodes) > 0 {
-					reach = f.CanReach(dpt, cs.Pt) || dpt == cs.Pt
-				}
-				c.Check(!reach, "pool map not changed after the dirty phase", "T2", cs.Pos(), "delete(p.wrappers,·) happens before the dirty-mark loop only", "the pool map is modified after databases were marked dirty")
-			}
-		}
-		// every error return precedes the next phase: a return with non-nil error inside a phase — implied by
-		// the dominance checks; additionally the final return nil is dominated by the clean loop's exit
-		cleanDone, cComplete := loopDone(f, cleanLoop)
-		okFinal := cComplete
-		for _, rp := range returnsWith(f, 0, func(e ast.Expr) bool { return core.IsNil(f.Info(), e) }) {
-			if ok, _ := mustPassBlockBefore(f, cleanDone, rp); !ok {
-				okFinal = false
-			}
-		}
-		c.Check(okFinal, "success only after all clean marks", "T2 Dominates (loop exit)", f.Pos(), "flush returns nil only after the complete clean-mark loop", "flush can report success before every database carries the clean mark")
-		// Flush() entry point: holds the pool mutex and the flushing lock, calls flush(id) with its own id
-		ent := c.Fn(poolT + ".Flush")
-		okEnt := false
-		for _, cs := range ent.CallsTo(poolT + ".flush") {
-			okEnt = len(cs.Call.Args) == 1 && varOf(ent, cs.Call.Args[0]) == ent.Param(0)
-		}
-		c.Check(okEnt, "Flush(id) runs flush(id)", "provenance", ent.Pos(), "the exported Flush passes its ID to flush", "Flush does not pass its ID to flush")
+		c25Pool(c)
 	})
 
 	c.Clause("C25.flag.mutators", func() {
@@ -200,23 +112,29 @@ func runC25(c *core.Ctx) {
 			}
 			return cm.Op == token.NEQ && isDirtyLoad(cm.L) && core.IsConstInt(f.Info(), cm.R, 0)
 		}
+		// Every path to a `return nil` takes the already-dirty edge, or passes the mark Put and then the
+		// edge on which the Put's error is nil. (When the Put's result is returned as it is — `return
+		// s.Store.Put(..)` — that return is not a literal nil and reports exactly the Put's outcome.)
 		ev := errVarOfCall(f, put.Call)
+		dirtyEdge := f.GuardEdges(alreadyDirty)
+		putOK := dirtyEdge
+		if ev != nil {
+			errNil := f.GuardEdges(varNilFact(f, ev, true))
+			putOK = func(b *cfg.Block, s int) bool { return dirtyEdge(b, s) || errNil(b, s) }
+		}
 		okNil := true
 		for _, rp := range returnsWith(f, 0, func(e ast.Expr) bool { return core.IsNil(f.Info(), e) }) {
-			// path to this return avoiding (Put followed by err==nil edge) and avoiding the already-dirty edge
-			dirtyEdge := f.GuardEdges(alreadyDirty)
-			_, found := core.PathQuery{F: f, From: f.Entry(), Target: core.PointSet(rp), Avoid: core.PointSet(put.Pt), AvoidEdge: dirtyEdge}.Find()
-			if found {
+			// reaching this return without the Put and without the already-dirty edge
+			if _, found := (core.PathQuery{F: f, From: f.Entry(), Target: core.PointSet(rp), Avoid: core.PointSet(put.Pt), AvoidEdge: dirtyEdge}).Find(); found {
 				okNil = false
 			}
-			if ev != nil {
-				if ok, _ := f.GuardedBetween(put.Pt, rp, varNilFact(f, ev, true)); !ok {
-					okNil = false
-				}
-			} else {
+			// reaching it after the Put without having seen its error to be nil
+			if _, found := (core.PathQuery{F: f, From: put.Pt, FromAfter: true, Target: core.PointSet(rp), AvoidEdge: putOK}).Find(); found {
 				okNil = false
 			}
 		}
+		// a returned error variable must not hide a failed Put either: nothing to decide here, a non-nil
+		// error is the safe answer for the caller (the write is refused)
 		c.Check(okNil, "modified() returns nil only when the dirty mark is on disk", "T2+T4", f.Pos(), "nil is returned only after the mark Put succeeded, or on the already-dirty edge", "modified() can return nil without the dirty mark having been written")
 	})
 
@@ -255,23 +173,72 @@ func runC25(c *core.Ctx) {
 
 	c.Clause("C25.flag.drop", func() {
 		od := c.Fn(fpPkg + ".Producer.OpenDB")
-		var dropFn *core.FuncInfo
+		// the function values installed as flaggedStore.DropFn: a literal in the composite literal (or
+		// assigned to the field), a local holding one, or the result of a module function that returns one
+		var dropFns []*core.FuncInfo
+		var valuesOf func(g *core.FuncInfo, e ast.Expr, depth int) bool
+		valuesOf = func(g *core.FuncInfo, e ast.Expr, depth int) bool {
+			e = resolveLocal(g, e)
+			if lit, ok := e.(*ast.FuncLit); ok {
+				if li := p.LitInfo(lit); li != nil {
+					dropFns = append(dropFns, li)
+					return true
+				}
+				return false
+			}
+			call, ok := e.(*ast.CallExpr)
+			if !ok || depth <= 0 {
+				return false
+			}
+			fn, _ := g.ObjOf(call.Fun).(*types.Func)
+			h := p.FuncOf(fn)
+			if h == nil {
+				return false
+			}
+			rets := h.ReturnPoints()
+			if len(rets) == 0 {
+				return false
+			}
+			for _, rp := range rets {
+				r := rp.Node().(*ast.ReturnStmt)
+				if len(r.Results) != 1 || !valuesOf(h, r.Results[0], depth-1) {
+					return false
+				}
+			}
+			return true
+		}
+		resolved, nSites := true, 0
 		od.InspectOwn(func(n ast.Node) bool {
 			if kv, ok := n.(*ast.KeyValueExpr); ok {
 				if id, ok := kv.Key.(*ast.Ident); ok {
 					if v, ok := od.Info().ObjectOf(id).(*types.Var); ok && p.FieldName(v) == fStore+".DropFn" {
-						if lit, ok := ast.Unparen(kv.Value).(*ast.FuncLit); ok {
-							dropFn = p.LitInfo(lit)
+						nSites++
+						if !valuesOf(od, kv.Value, 2) {
+							resolved = false
 						}
 					}
 				}
 			}
 			return true
 		})
-		c.Need(dropFn != nil, "flaggedStore.DropFn closure in Producer.OpenDB")
-		drops := dropFn.CallsTo("kvdb.Droper.Drop")
+		for _, a := range assignsToField(od, fStore+".DropFn") {
+			nSites++
+			if a.RHS == nil || !valuesOf(od, a.RHS, 2) {
+				resolved = false
+			}
+		}
+		c.Need(nSites > 0 && resolved && len(dropFns) > 0, "flaggedStore.DropFn closure installed by Producer.OpenDB")
+		var drops []*core.CallSite
+		hostOf := map[*core.CallSite]*core.FuncInfo{}
+		for _, fn := range dropFns {
+			for _, d := range fn.CallsTo("kvdb.Droper.Drop") {
+				drops = append(drops, d)
+				hostOf[d] = fn
+			}
+		}
 		c.ExpectAtLeast("real drop sites in DropFn", len(drops), 1)
 		for _, d := range drops {
+			dropFn := hostOf[d]
 			// some invalidation of the remaining databases' clean state must precede the drop:
 			// a call of modified() / MarkFlushID(Dirty) reachable in the closure before the drop
 			inval := core.Points(dropFn.CallsMatching(func(cs *core.CallSite) bool {
@@ -296,8 +263,9 @@ func runC25(c *core.Ctx) {
 			return len(r.Results) == 2 && !core.IsNil(f.Info(), r.Results[1])
 		}
 		type rule struct {
-			name  string
-			match func(core.Fact) bool
+			name    string
+			match   func(core.Fact) bool
+			alsoNot func(core.Fact) bool // further facts that imply the condition is false (may be nil)
 		}
 		markVar := func() *types.Var {
 			for _, cs := range f.CallsTo(kvGet) {
@@ -314,35 +282,81 @@ func runC25(c *core.Ctx) {
 		c.Need(markVar != nil, "mark, err := db.Get(flushIDKey)")
 		flushID := f.ParamNamed("flushID")
 		c.Need(flushID != nil, "flushID parameter")
+		// len(mark) == 0 (in any spelling): an empty mark does not start with the dirty prefix
+		emptyMark := func(ft core.Fact) bool {
+			cm, ok := core.NormCmp(ft)
+			if !ok || cm.R == nil {
+				return false
+			}
+			isLen := func(e ast.Expr) bool {
+				call, ok := ast.Unparen(e).(*ast.CallExpr)
+				if !ok || len(call.Args) != 1 {
+					return false
+				}
+				b, ok := f.ObjOf(call.Fun).(*types.Builtin)
+				return ok && b.Name() == "len" && canonVar(f, varOf(f, call.Args[0])) == markVar
+			}
+			switch {
+			case isLen(cm.L) && core.IsConstInt(f.Info(), cm.R, 0):
+				return cm.Op == token.EQL || cm.Op == token.LEQ
+			case isLen(cm.L) && core.IsConstInt(f.Info(), cm.R, 1):
+				return cm.Op == token.LSS
+			case isLen(cm.R) && core.IsConstInt(f.Info(), cm.L, 0):
+				return cm.Op == token.EQL
+			}
+			return false
+		}
 		rules := []rule{
 			{"dirty prefix => error", func(ft core.Fact) bool {
-				if !ft.Truth {
-					return false
-				}
-				call := isCallTo(f, ft.Expr, "bytes.HasPrefix")
-				if call == nil || varOf(f, call.Args[0]) != markVar {
-					return false
-				}
-				found := false
-				ast.Inspect(call.Args[1], func(n ast.Node) bool {
-					if e, ok := n.(ast.Expr); ok && constNamed(f, e, "kvdb/flushable.DirtyPrefix") {
-						found = true
+				// bytes.HasPrefix(mark, X) where X is (a local holding) a byte-slice literal that starts
+				// with DirtyPrefix
+				if call := isCallTo(f, ft.Expr, "bytes.HasPrefix"); call != nil && ft.Truth {
+					if len(call.Args) != 2 || canonVar(f, varOf(f, call.Args[0])) != markVar {
+						return false
 					}
-					return !found
-				})
-				return found
-			}},
+					found := false
+					ast.Inspect(resolveLocal(f, call.Args[1]), func(n ast.Node) bool {
+						if e, ok := n.(ast.Expr); ok && constNamed(f, e, "kvdb/flushable.DirtyPrefix") {
+							found = true
+						}
+						return !found
+					})
+					return found
+				}
+				// or the first byte compared with the constant: mark[0] == DirtyPrefix
+				if cm, ok := core.NormCmp(ft); ok && cm.R != nil && cm.Op == token.EQL {
+					l, r := ast.Unparen(cm.L), ast.Unparen(cm.R)
+					if constNamed(f, resolveLocal(f, l), "kvdb/flushable.DirtyPrefix") {
+						l, r = r, l
+					}
+					if ix, ok := l.(*ast.IndexExpr); ok && constNamed(f, resolveLocal(f, r), "kvdb/flushable.DirtyPrefix") {
+						return canonVar(f, varOf(f, ix.X)) == markVar && core.IsConstInt(f.Info(), ix.Index, 0)
+					}
+				}
+				return false
+			}, emptyMark},
 			{"differing marks => error", func(ft core.Fact) bool {
-				if ft.Truth {
-					return false
+				sameOperands := func(call *ast.CallExpr) bool {
+					if call == nil || len(call.Args) != 2 {
+						return false
+					}
+					a, b := canonVar(f, varOf(f, call.Args[0])), canonVar(f, varOf(f, call.Args[1]))
+					return (a == markVar && b == flushID) || (b == markVar && a == flushID)
 				}
-				call := isCallTo(f, ft.Expr, "bytes.Equal")
-				if call == nil {
-					return false
+				// !bytes.Equal(mark, flushID)
+				if call := isCallTo(f, ft.Expr, "bytes.Equal"); call != nil {
+					return !ft.Truth && sameOperands(call)
 				}
-				a, b := varOf(f, call.Args[0]), varOf(f, call.Args[1])
-				return (a == markVar && b == flushID) || (b == markVar && a == flushID)
-			}},
+				// bytes.Compare(mark, flushID) != 0
+				if cm, ok := core.NormCmp(ft); ok && cm.R != nil && cm.Op == token.NEQ {
+					l, r := cm.L, cm.R
+					if core.IsConstInt(f.Info(), l, 0) {
+						l, r = r, l
+					}
+					return core.IsConstInt(f.Info(), r, 0) && sameOperands(isCallTo(f, l, "bytes.Compare"))
+				}
+				return false
+			}, nil},
 		}
 		for _, r := range rules {
 			edges := edgesWithFact(f, r.match)
@@ -356,14 +370,19 @@ func runC25(c *core.Ctx) {
 					okRow, whyRow = false, "acceptance is reachable after this test fired: "+f.DescribePath(wit)
 				}
 			}
+			if len(edges) == 0 {
+				okRow, whyRow = false, "CheckDBsSynced never tests this condition"
+			}
 			if okRow {
 				// complementary side: per database, moving on to the next one (or accepting) needs the test to be false,
 				// or the database to be unmarked
-				notX := func(ft core.Fact) bool { return r.match(core.Fact{Expr: ft.Expr, Truth: !ft.Truth}) || unmarked(ft) }
+				notX := func(ft core.Fact) bool {
+					return r.match(core.Fact{Expr: ft.Expr, Truth: !ft.Truth}) || unmarked(ft) || (r.alsoNot != nil && r.alsoNot(ft))
+				}
 				first := edges[0]
 				if loop := enclosingLoop(f, posOf(core.Point{B: first.B, I: len(first.B.Nodes) - 1})); loop != nil {
 					if head, _ := f.LoopOf(loop); head != nil && len(head.Succs) > 0 {
-						path, found := core.PathQuery{F: f, From: blockEntry(head.Succs[0]), AvoidEdge: f.GuardEdges(notX),
+						path, found := core.PathQuery{F: f, From: blockEntry(head.Succs[0]), AvoidEdge: c25ImpliedEdges(f, notX),
 							Target:      func(pt core.Point) bool { rs, k := pt.Node().(*ast.ReturnStmt); return k && !errRet(rs) },
 							TargetBlock: func(b *cfg.Block) bool { return b == head }}.Find()
 						if found {
@@ -385,29 +404,53 @@ func runC25(c *core.Ctx) {
 		}
 		c.Check(nonInit != nil, "unmarked database remembered", "T8 DecisionTable", f.Pos(), "a flag is set on the mark == nil edge", "an unmarked database is not remembered")
 		if nonInit != nil {
-			edges := edgesWithFact(f, func(ft core.Fact) bool { return ft.Truth && varOf(f, ft.Expr) == nonInit })
-			okE := false
-			for _, e := range edges {
-				facts := f.EdgeFacts(e.B, e.Succ)
-				hasID := false
-				for _, ft := range facts {
-					if varNilFact(f, flushID, false)(ft) {
-						hasID = true
-					}
-				}
-				if ok, _ := edgeLeadsOnlyTo(f, e.B, e.Succ, errRet); ok && hasID {
-					okE = true
+			// Acceptance after the scan needs ¬(flushID != nil ∧ unmarked seen): every path from the end of the
+			// scan loop to a nil-error return takes an edge that implies flushID == nil or that the flag is
+			// false, however the test is spelled (one condition, nested ifs, De Morgan form, early return).
+			// (Edges inside the loop do not count: flushID is still being adopted there.)
+			var scan ast.Stmt
+			for _, cs := range f.CallsTo(kvGet) {
+				if scan == nil {
+					scan = enclosingLoop(f, cs.Pos())
 				}
 			}
-			c.Check(okE, "unmarked database with known flush ID => error", "T8 DecisionTable", f.Pos(), "flushID != nil && nonInit leads only to an error return", "an unmarked database next to marked ones is accepted")
-			// that test dominates the success return (it is evaluated after the full scan)
-			for _, rp := range returnsWith(f, 1, func(e ast.Expr) bool { return core.IsNil(f.Info(), e) }) {
-				var testPts []core.Point
-				for _, e := range edges {
-					testPts = append(testPts, core.Point{B: e.B, I: len(e.B.Nodes) - 1})
+			c.Need(scan != nil, "the marks are read inside a loop over the databases")
+			scanDone, scanComplete := loopDone(f, scan)
+			c.Need(scanDone != nil, "scan loop exit")
+			flagFalse := func(ft core.Fact) bool {
+				cm, ok := core.NormCmp(ft)
+				if !ok {
+					return false
 				}
-				ok, _ := f.MustPassBefore(testPts, rp)
-				c.Check(ok, "success only after the full scan and the unmarked test", "T2 Dominates", posOf(rp), "the nil-error return is dominated by the final unmarked-database test", "CheckDBsSynced can accept without the final test")
+				if cm.R == nil {
+					return cm.Op == token.NEQ && canonVar(f, varOf(f, cm.L)) == nonInit
+				}
+				// flag == false / flag != true
+				l, r := cm.L, cm.R
+				if varOf(f, l) == nil {
+					l, r = r, l
+				}
+				if canonVar(f, varOf(f, l)) != nonInit {
+					return false
+				}
+				return (cm.Op == token.EQL && isIdentNamed(r, "false")) || (cm.Op == token.NEQ && isIdentNamed(r, "true"))
+			}
+			noConflict := func(ft core.Fact) bool { return flagFalse(ft) || varNilFact(f, flushID, true)(ft) }
+			tested := len(edgesWithFact(f, func(ft core.Fact) bool {
+				return flagFalse(ft) || flagFalse(core.Fact{Expr: ft.Expr, Truth: !ft.Truth})
+			})) > 0
+			okE, whyE := tested, "the unmarked-database flag is never tested"
+			accepting := returnsWith(f, 1, func(e ast.Expr) bool { return core.IsNil(f.Info(), e) })
+			for _, rp := range accepting {
+				if path, found := (core.PathQuery{F: f, From: blockEntry(scanDone), Target: core.PointSet(rp), AvoidEdge: c25ImpliedEdges(f, noConflict)}).Find(); found {
+					okE, whyE = false, "acceptance is reachable after the scan without flushID == nil or 'no unmarked database' having been established: "+f.DescribePath(path)
+				}
+			}
+			c.Check(okE && len(accepting) > 0, "unmarked database with known flush ID => error", "T8 DecisionTable", f.Pos(), "after the scan, a nil error is returned only over an edge implying flushID == nil or that no unmarked database was seen", "an unmarked database next to marked ones is accepted: "+whyE)
+			// acceptance only after the full scan
+			for _, rp := range accepting {
+				ok, _ := mustPassBlockBefore(f, scanDone, rp)
+				c.Check(ok && scanComplete, "success only after the full scan and the unmarked test", "T2 Dominates", posOf(rp), "the nil-error return is dominated by the exit of the scan loop (and guarded by the final unmarked-database test)", "CheckDBsSynced can accept without having scanned every database")
 			}
 		}
 		// flushID adopted from the first mark only when unknown
